@@ -35,9 +35,9 @@ Proof.
     end.
     { clear IH. induction l0 as [|child rest IHl]; intros seen dups acc err Hl Hacc; [exact Hacc|].
       cbn [forallb] in Hl. apply andb_true_iff in Hl. destruct Hl as [Hc Hr].
-      cbv beta iota.
-      destruct (list_item_to_pe s t child) as [e|] eqn:He; [|apply IHl; assumption].
-      pose proof (list_item_to_pe_wf_el s R t child e Hok HRel Hc He) as Hwe.
+      cbv beta iota zeta.
+      pose proof (list_item_pe_or_zero_wf_el s R t child Hok HRel Hc) as Hwe.
+      set (e := list_item_pe_or_zero s t child) in *.
       destruct (pes_has e seen); [|apply IHl; assumption].
       destruct (pes_has e dups); [apply IHl; assumption|].
       apply IHl; [exact Hr|]. rewrite forallb_app, Hacc. cbn [forallb].
@@ -58,8 +58,9 @@ Proof.
       specialize (IHl Hrest Hr). cbv beta iota.
       match type of IHl with forallb wf_path (snd ?gr) = true => destruct gr as [e2 r] end.
       cbn [snd] in IHl.
-      destruct (list_item_to_pe s t child) as [e|] eqn:He; [|exact IHl].
-      pose proof (list_item_to_pe_wf_el s R t child e Hok HRel Hc He) as Hwe.
+      pose proof (list_item_pe_or_zero_wf_el s R t child Hok HRel Hc) as Hwe.
+      cbv zeta.
+      set (e := list_item_pe_or_zero s t child) in *.
       destruct (pes_has e dups); [exact IHl|].
       pose proof (Hchild (list_elem t) (prefix ++ [e]) HRel (wf_path_app1 prefix e Hp Hwe) Hc) as Hsub.
       destruct (fs_paths s (list_elem t) (prefix ++ [e]) child) as [e1 sub].
